@@ -1293,6 +1293,42 @@ pub fn c05_units(seed: u64, thorough: bool) -> Vec<Unit> {
 pub fn c15_units(seed: u64, thorough: bool) -> Vec<Unit> {
     let cat = catalogue::finalize(catalogue::catalogue(), "n");
     let mut out = vec![];
+    // the other `alloc` collections as inner types (the catalogue has Vec only), with every trait an any-type
+    // newtype can derive - IntoIterator in particular, whose impl names the collection's iterator types
+    for (name, path, ty, gen_ty) in [
+        ("btreeset", "alloc::collections::BTreeSet", "BTreeSet<i32>", "BTreeSet<T>"),
+        ("btreemap", "alloc::collections::BTreeMap", "BTreeMap<i32, i32>", "BTreeMap<T, i32>"),
+        ("vecdeque", "alloc::collections::VecDeque", "VecDeque<i32>", "VecDeque<T>"),
+        ("linkedlist", "alloc::collections::LinkedList", "LinkedList<i32>", "LinkedList<T>"),
+        ("binaryheap", "alloc::collections::BinaryHeap", "BinaryHeap<i32>", "BinaryHeap<T>"),
+        ("box-slice", "alloc::boxed::Box", "Box<[i32]>", "Box<[T]>"),
+        ("string-in-vec", "alloc::string::String", "alloc::vec::Vec<String>", "alloc::vec::Vec<(T, String)>"),
+    ] {
+        let header = format!("#![allow(unused, non_snake_case, non_camel_case_types, clippy::all)]\nuse nutype::nutype;\nuse crate::prelude::*;\nuse {path};\n");
+        let iter = if name == "string-in-vec" || name == "box-slice" { "" } else { ", IntoIterator" };
+        for (kind, decl) in [
+            ("plain", format!("#[nutype(derive(Debug, Clone, AsRef, Deref, Into, From{iter}))]\npub struct T({ty});")),
+            ("validated", format!("#[nutype(validate(predicate = |c| c.len() < 100), derive(Debug, Clone, AsRef, Deref, TryFrom{iter}))]\npub struct T({ty});")),
+            ("generic", format!("#[nutype(derive(Debug, Clone, AsRef, Deref{iter}))]\npub struct W<T: Ord>({gen_ty});")),
+            ("serde", format!("#[nutype(derive(Debug, Clone, Serialize, Deserialize{iter}))]\npub struct T({ty});")),
+        ] {
+            if kind == "serde" && name == "binaryheap" {
+                continue; // BinaryHeap has no Clone-free serde story worth asserting here
+            }
+            out.push(Unit {
+                id: String::new(),
+                class: format!("no_std:collection:{name}:{kind}"),
+                features: if kind == "serde" { feats(&["serde"]) } else { feats(&[]) },
+                source: format!("{header}{decl}\n"),
+                expect: Expect::Accept,
+                expect_errors: vec![],
+                tests_must_fail: vec![],
+                tests_must_pass: vec![],
+                decl,
+                nontrivial: true,
+            });
+        }
+    }
     for d in cat.iter() {
         if d.inner == Inner::Str {
             continue;
